@@ -128,11 +128,11 @@ def drive(v, tier, tag, behaviours_file):
                                                "--seed", str(seed()), "--probe", "all"],
                                 os.path.join(work, "gen"), NCPU))
     runs, ln = (120, 40) if tier == "quick" else (1500, 60)
-    for scope, r in (("wide", runs), ("size", max(8, runs // 10))):
+    for scope, r, l in (("wide", runs, ln), ("size", max(8, runs // 10), ln), ("huge", 6 if tier == "quick" else 32, 7)):
         pre = os.path.join(work, "rnd-" + scope)
         n = min(NCPU, r)
         add("random-" + scope, run_shards("storedrive", ["random", pre, "--seed", str(seed()), "--runs", str(r),
-                                                         "--len", str(ln), "--scope", scope, "--probe", "all"], pre, n))
+                                                         "--len", str(l), "--scope", scope, "--probe", "all"], pre, n))
     if aborts:
         v.cov["process_deaths_in_code_under_test"] = aborts[:10]
     return files, summary
@@ -204,8 +204,8 @@ def check(prop, tier):
         v.cov["exhaustive"] = False
         v.cov["rule"] = ("every client behaviour (put/del/merge/reopen over 2 keys x 2 values) of the bounded "
                          "instances generated by TLC from Gen_Seq.tla, replayed on the real store, plus random "
-                         "workloads (6 keys, values 0..100 bytes; and a size scope with 8 KiB-boundary and 20 kB "
-                         "values); each recorded execution validated by TLC against TraceStore.tla")
+                         "workloads (6 keys, values 0..100 bytes; a size scope with 8 KiB-boundary and 20 kB "
+                         "values; a huge scope with 16 MiB and 32 MiB values and a 70 kB key); each recorded execution validated by TLC against TraceStore.tla")
         with open(bfile) as f:
             lines = f.read().splitlines()
         v.cov["samples"] = [json.loads(x) for x in lines[1:4]]
